@@ -49,6 +49,18 @@ PROPS = {
         technique="Lean 4 proof + differential correspondence",
         explanation="wip",
     ),
+    "C09": dict(
+        title="gerror: generated extension types match the base type on every method",
+        lean_modules=["Properties.C09"],
+        extract=[dict(name="extract-gerror", cmd=["go", "-C", "harness", "run", "./cmd/extract-gerror", "-out", "../lean/Generated"])],
+        harness=[dict(bin="h-gerrclone")],
+        trusted=[GO_TRUST % "h-gerrclone"],
+        assumptions=[],
+        level_text="wip",
+        level_note="wip",
+        technique="Lean 4 proof + differential correspondence",
+        explanation="wip",
+    ),
 }
 
 # properties not claimed, with the reason (kept current; see DESIGN.md)
